@@ -8,6 +8,7 @@ from ..ref import schnorr as rs, secp
 from .common import RngShim, rand_bytes, keys_boundary
 
 PROP = "C12"
+REPEAT_SAMPLE = {"quick": 15, "thorough": 60}   # expensive cases: small repeat pass
 LEVEL = "exploration"
 RULE = ("Signing: keys {1,2,n-1, boundary patterns, random, keys whose point has odd y, keys whose x-only pubkey has a "
         "leading zero byte}, messages of length 0..1024, aux {zeros, ones, random, omitted (secrets.token_bytes recorded)}: "
@@ -35,7 +36,17 @@ def gen_cases(tier, seed):
         aux = ["zeros", "ones", "rand", "omitted"][i % 4]
         ml = [0, 1, 31, 32, 33, 64, 100, 1024][i % 8] if i % 3 else rng.randrange(0, 1025)
         yield "sign", {"d": hex(d), "grind": cls, "aux": aux, "msg": rand_bytes(rng, ml).hex(), "salt": rng.getrandbits(32)}
-    for v in (0, N, N + 1, (1 << 256) - 1):
+    # signatures whose R.x has a leading zero byte (ground over aux with the reference signer): 1 in 256 otherwise
+    for i in range(8 if q else 60):
+        yield "sign", {"d": hex(rng.randrange(1, N)), "grind": "any", "aux": "grind_rx0", "msg": rand_bytes(rng, 32).hex(), "salt": rng.getrandbits(32)}
+    # families: one key / many messages and one message / many keys signed back to back in one process
+    for i in range(6 if q else 60):
+        yield "family", {"salt": rng.getrandbits(32), "n": 6}
+    # invalid-curve forgery: pk = 0 does not lift to the curve; (0, sqrt(-7)) has order 3 on y^2 = x^3 - 7, so a
+    # verifier that does not insist on a curve point can be satisfied without any secret key
+    for i in range(6 if q else 40):
+        yield "twist_forgery", {"salt": rng.getrandbits(40)}
+    for v in (0, N, N + 1, N + 2, N + 12345, (1 << 256) - 1):
         yield "sign_badkey", {"d": hex(v)}
     for i in range(60 if q else 900):
         d = rng.randrange(1, N)
@@ -47,9 +58,9 @@ def gen_cases(tier, seed):
 
 
 def required(tier):
-    return {"sign.decided": 120, "sign.class.odd_y": 15, "sign.class.pk_leading_zero": 10, "sign.class.aux_omitted": 20,
-            "sign.badkey_refused": 4, "verify.decided": 500, "verify.expected_accept": 40, "verify.mut.pk_zero_prepended": 30,
-            "verify.mut.sig_zero_before_s": 30, "verify.mut.odd_R": 10}
+    return {"sign.decided": 120, "sign.class.odd_y": 15, "sign.class.pk_leading_zero": 10, "sign.class.aux_omitted": 20, "sign.class.rx_leading_zero": 5, "family.signs": 50,
+            "sign.badkey_refused": 6, "verify.decided": 500, "verify.expected_accept": 40, "verify.mut.pk_zero_prepended": 30,
+            "verify.mut.sig_zero_before_s": 30, "verify.mut.odd_R": 10, "verify.mut.twist_forgery": 4}
 
 
 _self = False
@@ -135,6 +146,18 @@ def run_case(kind, params, ctx):
                     aux = None
                 else:
                     aux = sh.tokens[0]
+            elif auxk == "grind_rx0":
+                aux = None
+                for t in range(4000):
+                    cand = rand_bytes(rng, 32)
+                    if rs.sign(sk, msg, cand)[0] == 0:
+                        aux = cand
+                        break
+                if aux is None:
+                    ctx.count("sign.grind_failed")
+                    return
+                ctx.count("sign.class.rx_leading_zero")
+                got = bytes(b340.sign(sk, msg, aux))
             else:
                 aux = {"zeros": b"\x00" * 32, "ones": b"\xff" * 32, "rand": rand_bytes(rng, 32)}[auxk]
                 got = bytes(b340.sign(sk, msg, aux))
@@ -158,6 +181,70 @@ def run_case(kind, params, ctx):
             ctx.violation(f"verify/rejects-own-signature/{cls}", f"{out}")
         if bytes(b340.pubkey(pt)) != pk:
             ctx.violation("pubkey/wrong", f"bip340.pubkey({pt})")
+        return
+    if kind == "family":
+        rng = rng_for("C12f", params["salt"])
+        d0 = rng.randrange(1, N)
+        m0 = rand_bytes(rng, 32)
+        jobs = [(d0, rand_bytes(rng, rng.choice([0, 32, 64]))) for _ in range(params["n"])] + [(rng.randrange(1, N), m0) for _ in range(params["n"])] + [(d0, m0), (d0, m0)]
+        for d, msg in jobs:
+            aux = rand_bytes(rng, 32) if rng.random() < 0.7 else b"\x00" * 32
+            sk = d.to_bytes(32, "big")
+            exp = rs.sign(sk, msg, aux)
+            ctx.count("family.signs")
+            ctx.seen("fam", (d, msg, aux))
+            try:
+                got = bytes(b340.sign(sk, msg, aux))
+            except ContractViolation:
+                raise
+            except Exception as e:
+                ctx.violation("family/sign-raises", f"{type(e).__name__}: {e}")
+                continue
+            if got != exp:
+                ctx.violation("family/sign-differs-from-bip340", f"after signing related inputs in the same process: d={d:#x} msg={msg.hex()[:32]}")
+            ok, out = _lib_verify(secp.pub(d)[0].to_bytes(32, "big"), msg, exp)
+            if not ok:
+                ctx.violation("family/verify-rejects-valid", f"{out}")
+        return
+    if kind == "twist_forgery":
+        rng = rng_for("C12t", params["salt"])
+        y0 = pow(7, (P + 1) // 4, P)
+        if y0 * y0 % P == 7:
+            ctx.oracle_error("x = 0 unexpectedly lifts to the curve")
+            return
+        ye = y0 if y0 % 2 == 0 else P - y0
+        P0 = (0, ye)
+        pk = bytes(32)
+        found = None
+        for attempt in range(200):
+            sv = rng.randrange(1, N)
+            c = rng.choice([1, 2])
+            eP = P0 if c == 1 else (0, P - ye)
+            R = secp.SECP.add(secp.SECP.mul(sv, secp.G), secp.SECP.neg(eP))
+            if R is None or R[1] % 2:
+                continue
+            rb = R[0].to_bytes(32, "big")
+            for ctr in range(12):
+                m = rand_bytes(rng, 32)
+                e = int.from_bytes(rs.tagged("BIP0340/challenge", rb + pk + m), "big") % N
+                if e % 3 == c:
+                    found = (m, rb + sv.to_bytes(32, "big"))
+                    break
+            if found:
+                break
+        if not found:
+            ctx.count("twist.construction_failed")
+            return
+        m, sig = found
+        if rs.verify(pk, m, sig):
+            ctx.oracle_error("reference accepts the twist forgery")
+            return
+        ok, out = _lib_verify(pk, m, sig)
+        ctx.count("verify.decided")
+        ctx.count("verify.mut.twist_forgery")
+        ctx.nontrivial()
+        if ok:
+            ctx.violation("verify/accepts-invalid/pk-not-on-curve/invalid-curve-forgery", f"verify(pk=00..00, msg={m.hex()}, sig={sig.hex()}) accepted: the public key does not lift to a curve point")
         return
     if kind == "sign_badkey":
         d = int(params["d"], 16)
